@@ -22,6 +22,9 @@ RULE = ("Histories: an index over 1..40 paths (integer lattice with many coincid
 ASSUMPTIONS = [
     "the ends that are indexed (starts; ends too only with reversal) do not all coincide (non-zero extent, the "
     "statement's precondition); remove() is only called for a path that is still live",
+    "coordinates that are not equal differ by at least ~1e-6 of the drawing's scale (continuous inputs are drawn on "
+    "a 2^-20 grid of the scale): with subnormal differences the squared distance underflows to 0 and the margin "
+    "(w+h)/200 underflows, which is float range exhaustion, not index behaviour",
     "queries whose neighbourhood membership is decided only by ends within 1e-9 cell of a border assert nothing "
     "about the neighbourhood (counted as ambiguous_skipped); validity and the global clauses still apply",
 ]
@@ -255,7 +258,9 @@ def point_sets(draw):
     else:
         scale = 10.0 ** draw(st.integers(-3, 6))
         off = draw(st.sampled_from([0.0, 0.0, 1.0, -3.0, 1000.0])) * scale
-        unit = st.floats(min_value=0.0, max_value=1.0, allow_nan=False, width=64)
+        # 2^-20 steps: distinct coordinates differ by >= 1e-6 of the scale, so squared distances neither underflow
+        # nor lose their order to rounding (a drawing with a dynamic range of 1e300 is outside any plotter's use)
+        unit = st.integers(0, 1 << 20).map(lambda k: k / float(1 << 20))
         pt = st.tuples(unit.map(lambda u: off + u * scale), unit.map(lambda u: off + u * scale))
     paths = [[list(draw(pt)), list(draw(pt))] for _ in range(n)]
     tag = "continuous" if kind in ("continuous", "page") else "lattice"
